@@ -168,26 +168,22 @@ func ruleCTORNONNIL(c *Ctx, r *Report) {
 	}
 	pr := c.parserRoles()
 	if pr.TokToLit != nil {
-		for _, b := range pr.TokToLit.Blocks {
-			for _, in := range b.Instrs {
-				ret, ok := in.(*ssa.Return)
-				if !ok {
-					continue
-				}
-				v := c.resolve(ret.Results[0], nil)
-				if isNilConst(v) {
-					continue // error path (checked by RET-PAIR)
-				}
-				if ph, ok := v.(*ssa.Phi); ok {
-					_ = ph
-				}
-				if c.freshPtrVal(v, 0) {
-					r.ok(rule, "token-literal|"+c.key(v, nil), c.instrPos(ret), "constructor result")
-				} else if !isNilConst(c.resolve(ret.Results[1], nil)) {
-					continue
-				} else {
-					r.bad(rule, "token-literal|"+c.key(v, nil), c.instrPos(ret), "the token→literal function returns a value that is not a fresh expression")
-				}
+		// path-based with helpers read in place: on every success return the value is a constructor result
+		paths, _ := c.enumPathsInl(pr.TokToLit, 5000)
+		for _, p := range paths {
+			if p.Ret == nil || len(p.Ret.Results) != 2 {
+				continue
+			}
+			v, ve := c.resolveE(p.Ret.Results[0], p.Env)
+			if isNilConst(v) {
+				continue // error path (checked by RET-PAIR)
+			}
+			if c.freshPtrVal(v, 0) {
+				r.ok(rule, "token-literal|"+c.key(v, ve), c.instrPos(p.Ret), "constructor result")
+			} else if !isNilConst(c.resolve(p.Ret.Results[1], p.Env)) {
+				continue
+			} else {
+				r.bad(rule, "token-literal|"+c.key(v, ve), c.instrPos(p.Ret), "the token→literal function returns a value that is not a fresh expression")
 			}
 		}
 	}
